@@ -256,7 +256,7 @@ def gen(rng):
 
 
 def plan(tier, seed):
-    n = 12000 if tier == "quick" else 150000
+    n = 12000 if tier == "quick" else 400000
     nshard = 15 if tier == "quick" else 32
     return [{"name": f"gen_{i:02d}", "n": n // nshard, "idx": i} for i in range(nshard)]
 
